@@ -176,8 +176,41 @@ func generate(tier string, search bool, rng *lib.Rand) []Case {
 		cs = append(cs, c)
 	}
 
-	// (F) malformed stream: file names outside the model (separators, dot names) — monitors only:
-	// Write may fail, the target must stay one complete set and a later valid Write must succeed
+	// (E') states an EARLIER process left (Prior): old version directories (@v<n>, ids below
+	// clock0), the target still linking to one of them / dangling / a plain file, a stale .new;
+	// the first Write of the new process is killed at every hook point (panic and real death),
+	// then recovery. Model comparison (the pre-existing entries must stay untouched until the
+	// rename) — the property monitors are off, the sets of earlier processes are not "Write calls"
+	priors := []struct {
+		clock0 int
+		pre    []RawOp
+	}{
+		{1, []RawOp{{Op: "mkdirAll", P: "b/@v0"}, {Op: "writeFile", P: "b/@v0/old", B: hx("7")}, {Op: "symlink", To: "b/@v0", P: "b/@T"}}},
+		{1, []RawOp{{Op: "mkdirAll", P: "b"}, {Op: "symlink", To: "b/@v0", P: "b/@T"}}}, // dangling
+		{3, []RawOp{{Op: "mkdirAll", P: "b/@v1"}, {Op: "writeFile", P: "b/@v1/a", B: hx("old")}, {Op: "mkdirAll", P: "b/@v0"},
+			{Op: "symlink", To: "b/@v1", P: "b/@T"}, {Op: "symlink", To: "b/@v2", P: "b/@T.new"}}},
+		{0, []RawOp{{Op: "mkdirAll", P: "b"}, {Op: "writeFile", P: "b/@T", B: hx("plain file")}}},
+		{0, []RawOp{{Op: "mkdirAll", P: "b"}, {Op: "writeFile", P: "b/@T.new", B: hx("plain file at .new")}}},
+		{2, []RawOp{{Op: "mkdirAll", P: "elsewhere/d"}, {Op: "writeFile", P: "elsewhere/d/f", B: hx("1")}, {Op: "mkdirAll", P: "b"},
+			{Op: "symlink", To: "elsewhere/d", P: "b/@T"}}},
+	}
+	for pi, pr := range priors {
+		f := pick(p, off+pi+1)
+		for at := 0; at < hookPoints(f); at++ {
+			c := mk("prior", "b", crash(f, at), write(pick(p, off+pi+2)), write(pick(p, off+pi+3)))
+			c.Pre, c.Foreign, c.Clock0 = pr.pre, true, pr.clock0
+			cs = append(cs, c)
+			if at%2 == pi%2 || tier == "thorough" {
+				k := mk("prior-kill", "b", kill(f, at), write(pick(p, off+pi+2)))
+				k.Pre, k.Foreign, k.Clock0 = pr.pre, true, pr.clock0
+				cs = append(cs, k)
+			}
+		}
+	}
+
+	// (F) malformed stream: file names that are not one path component. Model: the Write fails at
+	// that file (BADNAME; the concrete errno is not compared), trees are compared; monitors: the
+	// target must stay one complete set and a later valid Write must succeed
 	bad := []map[string]string{
 		{"sub/x": hx("1"), "a": hx("2")},
 		{"": hx("1")},
@@ -185,12 +218,15 @@ func generate(tier string, search bool, rng *lib.Rand) []Case {
 		{"..": hx("1")},
 	}
 	for i, b := range bad {
-		c := mk("badname", "b", write(p[1]), write(b))
+		c := mk("badname", "b", write(p[1]), write(b), write(pick(p, i)))
 		c.BadName = true
 		cs = append(cs, c)
 		c2 := mk("badname", "b", write(b), write(pick(p, i)))
 		c2.BadName = true
 		cs = append(cs, c2)
+		c3 := mk("badname", "b", write(p[4]), crash(p[1], 6), write(b), write(pick(p, i+1)))
+		c3.BadName = true
+		cs = append(cs, c3)
 	}
 
 	// (G) odd but valid names and sizes
